@@ -10,7 +10,7 @@ import engine
 from common import ROOT, BUILD, ML, sh
 
 TERM = {'completed', 'submitted', 'backed', 'cancelled', 'error', 'aborted', 'skipped', 'removed'}
-ALL_KINDS = {'N', 'T', 'M', 'P', 'A', 'X', 'Q', 'D', 'F', 'BUILD-FAILED', 'CASE-ERROR', 'GONE', 'OUT-OF-FUEL', 'START-FAILED'}
+ALL_KINDS = {'N', 'T', 'M', 'P', 'A', 'X', 'Q', 'D', 'F', 'BUILD-FAILED', 'CASE-ERROR', 'GONE', 'OUT-OF-FUEL', 'START-FAILED', 'PANIC', 'HUNG'}
 
 # property -> (line kinds its theorems depend on, oracle clause range)
 PROPS = {
@@ -208,7 +208,10 @@ def classify(case, clause, tid, mlines):
                 if any(below(h, x) or (px is not None and tr.parent(h) == px) for h in tr.hooks if h in st):
                     return "101:hook_act"
                 if kids:
-                    y = max(kids, key=lambda k: last.get(k, (-1,))[0])
+                    # an errored child under a task that is still open is what keeps it open (Act::review /
+                    # Step::review stop at the first errored child); otherwise the child that moved last
+                    errs = [k for k in kids if st[k] == 'error']
+                    y = max(errs or kids, key=lambda k: last.get(k, (-1,))[0])
                     return f"101:{tr.ti[x]['kind']}:{st[x]}:child_{st[y]}{last.get(y, (0, '', '@?'))[2]}"
                 return f"101:{tr.ti[x]['kind']}:{st[x]}:self{last.get(x, (0, '', '@?'))[2]}"
         return "101:?"
@@ -222,7 +225,7 @@ def run(prop, tier, seed):
         res = engine.build(tier, seed, variant='-tmo', n=(240 if tier == 'quick' else 4000), gen_args=('tmo',))
     else:
         res = engine.build(tier, seed)
-    agree, dis, cases, m, i = engine.compare(res, kinds | {'BUILD-FAILED', 'CASE-ERROR', 'GONE', 'OUT-OF-FUEL', 'START-FAILED'}, strip_site)
+    agree, dis, cases, m, i = engine.compare(res, kinds | {'BUILD-FAILED', 'CASE-ERROR', 'GONE', 'OUT-OF-FUEL', 'START-FAILED', 'PANIC', 'HUNG'}, strip_site)
     vi = run_oracle(res['cases'], res['impl'])
     violations = []
     nontrivial = 0
